@@ -88,10 +88,11 @@ type thread struct {
 }
 
 type access struct {
-	tid   int
-	clk   int32
-	pc    uintptr
-	valid bool
+	tid    int
+	clk    int32
+	pc     uintptr
+	valid  bool
+	atomic bool // made through sync/atomic: never races with another atomic access
 }
 
 type shadow struct {
@@ -119,6 +120,7 @@ type sched struct {
 	preempt int
 	shadow  map[uintptr]*shadow
 	pinned  map[unsafe.Pointer]struct{}
+	objs    map[unsafe.Pointer]*SyncObj
 	races   []string
 	raceSet map[string]bool
 	failure string
@@ -152,7 +154,7 @@ type Result struct {
 // Run executes body once under the scheduler, replaying prefix and taking
 // choice 0 afterwards.
 func Run(prefix []int, maxSteps int, body func()) Result {
-	sc := &sched{yield: make(chan int), prefix: prefix, shadow: map[uintptr]*shadow{}, pinned: map[unsafe.Pointer]struct{}{}, raceSet: map[string]bool{}, maxStep: maxSteps}
+	sc := &sched{yield: make(chan int), prefix: prefix, shadow: map[uintptr]*shadow{}, pinned: map[unsafe.Pointer]struct{}{}, objs: map[unsafe.Pointer]*SyncObj{}, raceSet: map[string]bool{}, maxStep: maxSteps}
 	s = sc
 	main := &thread{id: 0, resume: make(chan struct{}), vc: vclock{1}, h: hv{1, 2}}
 	sc.threads = append(sc.threads, main)
@@ -361,6 +363,47 @@ func Release(o *SyncObj) {
 	o.rel.b += t.h.b
 }
 
+// Publish replaces what o carries by the current thread's history (atomic
+// store: a later load observes this store, not the ones it overwrote).
+func Publish(o *SyncObj) {
+	if s == nil {
+		return
+	}
+	t := s.cur
+	o.vc = t.vc.copyOf()
+	t.vc.inc(t.id)
+	t.h = t.h.fold('U')
+	o.rel = t.h
+}
+
+// ObjAt returns the synchronisation object standing for the atomic variable at
+// p in this execution.
+func ObjAt(p unsafe.Pointer) *SyncObj {
+	sc := s
+	pin(p)
+	o := sc.objs[p]
+	if o == nil {
+		o = &SyncObj{}
+		sc.objs[p] = o
+	}
+	return o
+}
+
+// AtomicAccess records an access made through sync/atomic in the shadow
+// memory: it is ordered with every other atomic access, but an unordered plain
+// access to the same bytes is a race.
+func AtomicAccess(p unsafe.Pointer, size uintptr, write bool) {
+	if s == nil {
+		return
+	}
+	k := kindRead
+	if write {
+		k = kindWrite
+	}
+	s.cur.lastCell = 0
+	memAccess(uintptr(p), size, k, true, false)
+}
+
 // Acquire imports o's history into the current thread (lock, Wait return, Once.Do return).
 func Acquire(o *SyncObj) {
 	if s == nil {
@@ -441,12 +484,14 @@ func (sc *sched) report(kind string, addr uintptr, a access, curPC uintptr, curK
 	}
 }
 
-func mem(addr uintptr, size uintptr, kind int) {
+func mem(addr uintptr, size uintptr, kind int) { memAccess(addr, size, kind, false, true) }
+
+func memAccess(addr uintptr, size uintptr, kind int, atomic, yield bool) {
 	sc := s
 	t := sc.cur
 	sc.nmem++
 	cell := addr &^ 7
-	if t.lastCell != cell || t.lastKind != kind {
+	if yield && (t.lastCell != cell || t.lastKind != kind) {
 		t.lastCell, t.lastKind = cell, kind
 		if kind == kindWrite {
 			yieldPoint("write")
@@ -455,7 +500,7 @@ func mem(addr uintptr, size uintptr, kind int) {
 		}
 	}
 	var pcs [1]uintptr
-	runtime.Callers(3, pcs[:])
+	runtime.Callers(4, pcs[:])
 	pc := pcs[0]
 	for a := addr; a < addr+size; a++ {
 		sh := sc.shadow[a]
@@ -463,7 +508,7 @@ func mem(addr uintptr, size uintptr, kind int) {
 			sh = &shadow{}
 			sc.shadow[a] = sh
 		}
-		if sh.w.valid && sh.w.tid != t.id && sh.w.clk > t.vc.get(sh.w.tid) {
+		if sh.w.valid && sh.w.tid != t.id && sh.w.clk > t.vc.get(sh.w.tid) && !(atomic && sh.w.atomic) {
 			if kind == kindWrite {
 				sc.report("write", a, sh.w, pc, "write")
 			} else {
@@ -472,11 +517,11 @@ func mem(addr uintptr, size uintptr, kind int) {
 		}
 		if kind == kindWrite {
 			for _, r := range sh.r {
-				if r.tid != t.id && r.clk > t.vc.get(r.tid) {
+				if r.tid != t.id && r.clk > t.vc.get(r.tid) && !(atomic && r.atomic) {
 					sc.report("read", a, r, pc, "write")
 				}
 			}
-			sh.w = access{t.id, t.vc.get(t.id), pc, true}
+			sh.w = access{t.id, t.vc.get(t.id), pc, true, atomic}
 			sh.r = sh.r[:0]
 			t.h = t.h.fold(uint64(pc) ^ 0x5700000000000000).foldH(sh.wh)
 			sh.wh = t.h
@@ -485,12 +530,12 @@ func mem(addr uintptr, size uintptr, kind int) {
 			found := false
 			for i := range sh.r {
 				if sh.r[i].tid == t.id {
-					sh.r[i] = access{t.id, t.vc.get(t.id), pc, true}
+					sh.r[i] = access{t.id, t.vc.get(t.id), pc, true, atomic}
 					found = true
 				}
 			}
 			if !found {
-				sh.r = append(sh.r, access{t.id, t.vc.get(t.id), pc, true})
+				sh.r = append(sh.r, access{t.id, t.vc.get(t.id), pc, true, atomic})
 			}
 		}
 		if len(sc.races) > 0 {
